@@ -90,11 +90,38 @@ def second_chance(prop: str, mod, tier: str, root: str, rep: Report, ctx, extra_
     rule is then satisfied that run is the verdict; otherwise the original findings stand."""
     from sa.context import Ctx
 
+    # two attempts: first keeping every function a rule looked at in the first run as a unit of its own (many are anchors with
+    # their own premises); then, if that does not suffice, keeping none (discovery scans look at functions that are not anchors)
+    # and the functions named by the findings with or without their callers (a finding may name the new helper itself)
+    for with_callers in (False, True):
+        for use_protect in (True, False):
+            r2, c2 = _second_chance_once(prop, mod, tier, root, rep, ctx, extra_targets, use_protect, with_callers)
+            if r2 is not rep:
+                return r2, c2
+    return rep, ctx
+
+
+def _second_chance_once(prop: str, mod, tier: str, root: str, rep: Report, ctx, extra_targets, use_protect: bool, with_callers: bool):
+    from sa.context import Ctx
+
     targets: set = set()
     cur = rep
-    protect = set(ctx._touched_funcs)
+    protect = set(ctx._touched_funcs) if use_protect else set()
     for _ in range(3):
-        new = ({f.construct for f in cur.findings()} | set(extra_targets)) - targets
+        named = {f.construct for f in cur.findings()}
+        # a finding may name a new private helper itself (e.g. a conversion site that moved into it): its callers are where it is inlined
+        import ast as _ast
+        shorts = {q.rsplit(".", 1)[-1]: q for q in named if q in ctx.prog.functions and q.rsplit(".", 1)[-1].startswith("_")
+                  and not q.rsplit(".", 1)[-1].startswith("__")}
+        callers = set()
+        if shorts and with_callers:
+            for fq, fi in ctx.prog.functions.items():
+                for n_ in _ast.walk(fi.node):
+                    if isinstance(n_, _ast.Call):
+                        nm = n_.func.attr if isinstance(n_.func, _ast.Attribute) else n_.func.id if isinstance(n_.func, _ast.Name) else None
+                        if nm in shorts and fq != shorts[nm]:
+                            callers.add(fq)
+        new = (named | callers | set(extra_targets)) - targets
         if not cur.findings() or not new:
             break
         targets |= new
@@ -113,7 +140,8 @@ def second_chance(prop: str, mod, tier: str, root: str, rep: Report, ctx, extra_
                                          "inside": sorted(targets)}
             return rep2, ctx2
         cur = rep2
-        protect |= set(ctx2._touched_funcs)
+        if use_protect:
+            protect |= set(ctx2._touched_funcs)
     return rep, ctx
 
 
